@@ -267,7 +267,7 @@ fn templates(rng: &mut Rng, thorough: bool) -> Vec<(Cfg, Vec<Step>)> {
     v
 }
 
-fn run(hist: usize, cfg: Cfg, steps: &[Step], crash_at: Option<u64>, init: &[(u64, bitcoin::Block)], out: &mut dyn Write) -> u64 {
+fn run(hist: usize, cfg: Cfg, steps: &[Step], crash_at: Option<u64>, skip: Option<usize>, init: &[(u64, bitcoin::Block)], out: &mut dyn Write) -> u64 {
     teos_common::verif::reset();
     let mut sys = Sys::new(cfg, work_dir(&format!("{hist}")), init);
     // crash points are counted from here (the bootstrap's own writes are not part of the history)
@@ -278,11 +278,24 @@ fn run(hist: usize, cfg: Cfg, steps: &[Step], crash_at: Option<u64>, init: &[(u6
     let mut line = Line::new();
     let mut crashed: Option<(usize, String)> = None;
     let mut rec_line = Line::new();
+    let mut costs: Vec<String> = Vec::new();
     for (i, s) in steps.iter().enumerate() {
         let mut l = Line::new();
         let before = teos_common::verif::count();
+        if skip == Some(i) {
+            // the request never reaches the tower (its blob is still materialised so that ids stay aligned)
+            if let Step::Add(_, _, key, pay, len) = s {
+                sys.w.make_blob(*key, *pay, *len, 1);
+            }
+            continue;
+        }
+        if let Step::Add(_, _, key, pay, len) = s {
+            let b = sys.w.make_blob(*key, *pay, *len, 1);
+            let blen = sys.w.blobs[b].1.len;
+            costs.push(format!("{i}:{}", (blen + 2047) / 2048));
+        }
         let r = sys.step(s, &mut l);
-        if crash_at.is_none() {
+        if crash_at.is_none() && skip.is_none() {
             line.tok(format!("s{i}:{}:{}", l.0.replace(' ', ","), sys.tables().replace(' ', ",")));
         }
         if r.is_err() {
@@ -302,7 +315,29 @@ fn run(hist: usize, cfg: Cfg, steps: &[Step], crash_at: Option<u64>, init: &[(u6
     let sends_s = sends.iter().map(|x| x.to_string()).collect::<Vec<_>>().join(" ");
     match crash_at {
         None => {
-            writeln!(out, "CRREF {hist} {} {n} | {} FINAL {final_tables} SENDS {} {sends_s}", steps.len(), line.0, sends.len()).unwrap();
+            let kinds: Vec<&str> = steps
+                .iter()
+                .map(|s| match s {
+                    Step::Api(Op::Register(_)) => "r",
+                    Step::Api(_) => "g",
+                    Step::Add(..) => "a",
+                    Step::Poll => "p",
+                    _ => "e",
+                })
+                .collect();
+            match skip {
+                None => writeln!(
+                    out,
+                    "CRREF {hist} {} {n} | KINDS {} COSTS {} {} FINAL {final_tables} SENDS {} {sends_s}",
+                    steps.len(),
+                    kinds.join(","),
+                    if costs.is_empty() { "-".to_string() } else { costs.join(",") },
+                    line.0,
+                    sends.len()
+                )
+                .unwrap(),
+                Some(i) => writeln!(out, "CRMINUS {hist} {i} | FINAL {final_tables} SENDS {} {sends_s}", sends.len()).unwrap(),
+            }
         }
         Some(c) => {
             let (step, label) = crashed.clone().unwrap_or((usize::MAX, "not-reached".into()));
@@ -340,12 +375,18 @@ fn main() {
         if h as u64 % nshards != shard {
             continue;
         }
-        let n = run(h, *cfg, steps, None, &init, &mut out);
+        let n = run(h, *cfg, steps, None, None, &init, &mut out);
+        // the same history without each API request (the oracle for a request lost in a crash)
+        for (i, st) in steps.iter().enumerate() {
+            if matches!(st, Step::Api(Op::Register(_)) | Step::Add(..)) {
+                run(h, *cfg, steps, None, Some(i), &init, &mut out);
+            }
+        }
         // every crash point of the history; template 4 has thousands of identical ones: sample its middle
         let stride = if n > 400 && !thorough { (n / 200).max(1) } else { 1 };
         let mut c = 0;
         while c < n {
-            run(h, *cfg, steps, Some(c), &init, &mut out);
+            run(h, *cfg, steps, Some(c), None, &init, &mut out);
             c += stride;
         }
     }
